@@ -90,7 +90,16 @@ type xRule struct {
 type xGram struct {
 	k   int // number of character terminals 'a'..
 	nts [][]*xRule
+	// cc: rendered as `language x(cc)` (syntax.CcExpandOptions: typed list / optional values) with
+	// declared value types on some terminals and nonterminals ("" = untyped)
+	cc       bool
+	termType []string
+	ntType   []string
 }
+
+// c13RenderCC is set while a grammar is rendered for the cc target (noEmptyRules is on there: a rule made
+// of state markers / commands only needs an %empty marker).
+var c13RenderCC bool
 
 func termText(t int) string { return "'" + string(rune('a'+t)) + "'" }
 
@@ -216,6 +225,16 @@ func (r *xRule) String() string {
 	}
 	if len(ps) == 0 {
 		ps = append(ps, "%empty")
+	} else if c13RenderCC {
+		only := true
+		for _, p := range r.parts {
+			if p.kind != xMarker && p.kind != xCommand {
+				only = false
+			}
+		}
+		if only {
+			ps = append([]string{"%empty"}, ps...)
+		}
 	}
 	if r.prec >= 0 {
 		ps = append(ps, "%prec "+termText(r.prec))
@@ -228,13 +247,25 @@ func (r *xRule) String() string {
 
 func (g *xGram) TM(name string) string {
 	var sb strings.Builder
-	fmt.Fprintf(&sb, "language %s(go);\n\nlang = %q\npackage = \"gp/%s\"\n\n::lexer\n\n", name, name, name)
+	c13RenderCC = g.cc
+	defer func() { c13RenderCC = false }()
+	typ := func(l []string, i int) string {
+		if g.cc && i < len(l) && l[i] != "" {
+			return " {" + l[i] + "}"
+		}
+		return ""
+	}
+	if g.cc {
+		fmt.Fprintf(&sb, "language %s(cc);\n\nnamespace = %q\n\n::lexer\n\n", name, name)
+	} else {
+		fmt.Fprintf(&sb, "language %s(go);\n\nlang = %q\npackage = \"gp/%s\"\n\n::lexer\n\n", name, name, name)
+	}
 	for t := 0; t < g.k; t++ {
-		fmt.Fprintf(&sb, "%s: /%c/\n", termText(t), rune('a'+t))
+		fmt.Fprintf(&sb, "%s%s: /%c/\n", termText(t), typ(g.termType, t), rune('a'+t))
 	}
 	sb.WriteString("\n::parser\n\n%input N0;\n\n")
 	for i, rules := range g.nts {
-		fmt.Fprintf(&sb, "N%d :\n", i)
+		fmt.Fprintf(&sb, "N%d%s :\n", i, typ(g.ntType, i))
 		for j, r := range rules {
 			if j == 0 {
 				sb.WriteString("    ")
@@ -250,12 +281,26 @@ func (g *xGram) TM(name string) string {
 
 func (g *xGram) Pretty() string {
 	var sb strings.Builder
+	c13RenderCC = g.cc
+	defer func() { c13RenderCC = false }()
 	for i, rules := range g.nts {
 		var alts []string
 		for _, r := range rules {
 			alts = append(alts, r.String())
 		}
-		fmt.Fprintf(&sb, "N%d: %s; ", i, strings.Join(alts, " | "))
+		ty := ""
+		if g.cc && g.ntType[i] != "" {
+			ty = " {" + g.ntType[i] + "}"
+		}
+		fmt.Fprintf(&sb, "N%d%s: %s; ", i, ty, strings.Join(alts, " | "))
+	}
+	if g.cc {
+		sb.WriteString("(cc) ")
+		for t, ty := range g.termType {
+			if ty != "" {
+				fmt.Fprintf(&sb, "%s{%s} ", termText(t), ty)
+			}
+		}
 	}
 	return sb.String()
 }
@@ -1437,7 +1482,7 @@ func c13(c *Ctx) {
 	c.Extra["probe_empty_set_defect_present"] = emptySetBroken
 	c.Extra["probe_set_intersect_alias_defect_present"] = aliasBroken
 	c.Rule = "random surface trees of the rule notation over 2-4 single-character terminals and 1-4 nonterminals (rules of 0-4 parts, depth <= 3: optional parts, nested choices and sequences in parentheses, + and * quantifiers, (.. separator ..)+/* lists with 1-2 separator terminals, lists of lists, set(...) with terminals / first / last / any / | & ~, lookahead markers, state markers, arrows, %prec, assignments, commands, Xopt references; 40% of the quantified lists over a plain symbol reuse an earlier list element verbatim or as (.m X) / (X | %empty) / (X -> A) / (X {}) so that extractNonterm sees equal provisional names with equal and with different expressions; 14% of the grammars get a FAMILY of 2-3 set(...) clauses with the same flat atom/operator/~ sequence but different grouping (same provisional name, e.g. set(~('a' | 'b')) and set(~'a' | 'b')), 14% a family of lists over one element with different separators of equal length (multi-terminal separators are all named _withsep); 30% of the separated lists have a separator-less list as their whole element ((a+ separator b)+)); " +
-		"path tm: rendered as .tm text and compiled by the REAL compiler.Compile (LALR conflicts ignored, the rules are read from grammar.Parser.Rules); path model: the same trees as syntax.Model values with a random subset of lists right-recursive, through the real Expand/ResolveSets/generateTables (hook VerifModelGrammar); " +
+		"path tm (half of the grammars) / tm-cc (a quarter: `language x(cc)`, i.e. syntax.CcExpandOptions with typed list and optional values, 65% of the terminals and 55% of the nonterminals with a declared value type): rendered as .tm text and compiled by the REAL compiler.Compile (LALR conflicts ignored, the rules are read from grammar.Parser.Rules); path model: the same trees as syntax.Model values with a random subset of lists right-recursive, through the real Expand/ResolveSets/generateTables (hook VerifModelGrammar); " +
 		"per grammar: struct (real rules vs Lean mirror, canonical form up to renaming of extracted nonterminals and rule order; mid-rule action nonterminals erased), sem (every string up to length 4-7 depending on alphabet size, every user nonterminal: brute-force derivability in the REAL rules vs the denotation evaluated in Lean), mem (random sentences of the real rules and their mutations, length up to 12); non-trivial = uses at least one extended construct, distinct by grammar text. " +
 		"Known defect classes, each probed on ONE fixed witness at start-up, reported through that witness and kept out of the random stream only while the probe shows the defect (VERIF_FINDINGS=1 keeps them in): [C13-empty-set] a set(...) that resolves to no terminal becomes an EMPTY RULE (derives the empty string) instead of deriving nothing; [C13-set-intersect-alias] an intersection whose first operand is a complement, e.g. set(~'c' & ('a' | 'c')), resolves to wrong terminals (util/set closure reuses its buffer). Also skipped: complements of nonterminal-dependent sets (may be cyclic); grammars on which the compiler panics (mid-rule action inside a list element next to a nested list; a C22 matter) are counted as rejected."
 	nG := c.N(90, 1000)
@@ -1448,7 +1493,26 @@ func c13(c *Ctx) {
 		if os.Getenv("C13_TRACE") != "" {
 			fmt.Fprintf(os.Stderr, "%d %s\n", gi, xg.Pretty())
 		}
-		direct := gi%3 == 2
+		direct := gi%4 == 2
+		if gi%4 == 3 {
+			// the C++ target: CcExpandOptions (typed list / optional values) and declared value types
+			xg.cc = true
+			types := []string{"int", "std::string"}
+			for t := 0; t < xg.k; t++ {
+				ty := ""
+				if c.Rng.Intn(100) < 65 {
+					ty = types[c.Rng.Intn(2)]
+				}
+				xg.termType = append(xg.termType, ty)
+			}
+			for range xg.nts {
+				ty := ""
+				if c.Rng.Intn(100) < 55 {
+					ty = types[c.Rng.Intn(2)]
+				}
+				xg.ntType = append(xg.ntType, ty)
+			}
+		}
 		cv := convert(xg)
 		// make every nonterminal reachable from the first input (sets are computed over the part of the
 		// grammar reachable from it)
@@ -1496,6 +1560,9 @@ func c13(c *Ctx) {
 		var g *grammar.Grammar
 		var err error
 		path := "tm"
+		if xg.cc {
+			path = "tm-cc"
+		}
 		if direct {
 			path = "model"
 			rrUsed := false
